@@ -768,7 +768,10 @@ def check_arity_cover(idx: Index, rep: Report, tier: str):
             raise AnalysisError(f"{GATE}: {nm} not found")
         v = const_str_set(gm.assigned[nm])
         if v is None:
-            raise AnalysisError(f"{GATE}: {nm} is not a literal set of names")
+            from ..rules.circuitsem import module_str_set
+            v = module_str_set(idx, GATE, nm)          # a table computed from the other tables
+        if v is None:
+            raise AnalysisError(f"{GATE}: {nm} is neither a literal set of names nor an expression over such sets")
         sets[nm] = v
     rep.decide(not (sets["ONE_TARGET_GATES"] & sets["TWO_TARGET_GATES"]), rule, (GATE, "ONE_TARGET_GATES"), gm.assigned["ONE_TARGET_GATES"],
                text="arity classes disjoint", what="no name is both one-target and two-target",
